@@ -46,6 +46,8 @@ ASSUMED = [
     "or a dict, its 'num_categories' an int); json.dumps(meta, sort_keys=True).encode() serialises the object it is given as it is then",
     "a ThriftObject KeyValue: .key / .value, index 2 is the value field; thrift lists may be None when empty (`or []`)",
     "int(b'<decimal>') is the integer the byte string denotes; byte strings themselves only have lexicographic order",
+    "next(gen, None) / max(gen) over a generator with several `for` clauses: the value at a qualifying position (next: the first one; max: "
+    "one that bounds the value at every qualifying position); a chunk carries at most one b'num_categories' entry (the writer adds one)",
     "the records of meta['columns'] are distinct objects: an iteration of the column loop that writes only its own record leaves the "
     "others as they were (checked: cats.column_loop.writes_only_own_column)",
     "loops are summarised by an invariant proved on entry and after an arbitrary iteration from a havoc'd state; the universal part of "
@@ -112,6 +114,24 @@ class MaybeL(H):
         eng.oblige(p, f"{eng.cur_func}.no_iteration_over_None@L{st.lineno}", "safety", z3.Not(self.none), st)
         return self.seq.for_loop(eng, p, st)
 
+    def slice(self, eng, p, lo, hi, node):
+        return self.seq.slice(eng, p, lo, hi, node)
+
+    def getitem(self, eng, p, i, node):
+        return self.seq.getitem(eng, p, i, node)
+
+    def len(self, eng, p):
+        return PyI(self.seq.n)
+
+    def call_method(self, eng, p, name, args, kw, node):
+        if name == "index" and len(args) == 1 and isinstance(args[0], Custom) and isinstance(args[0].h, KV) and not kw:
+            # ASSUMED: the entries of a key-value list are distinct objects / values: .index(entry j) == j
+            j = args[0].h.j
+            eng.oblige(p, f"{eng.cur_func}.index_of_an_entry_of_the_list@L{node.lineno}", "safety", z3.And(0 <= j, j < self.seq.n), node,
+                       note="list.index raises ValueError for something that is not in the list")
+            return [(p, PyI(j))]
+        raise Unsupported("list." + name + "()")
+
 
 class FList(H):
     """[elt(x) for x in src if guard(x)]: the in-order sub-list; only emptiness and the first element are ever asked"""
@@ -171,6 +191,39 @@ class KV(H):
             return self.attr(eng, p, "key" if k.as_long() == 1 else "value")
         raise Unsupported("KeyValue[...]")
 
+    def merge(self, c, other):
+        return KVMix(c, Custom(self), other)
+
+    def describe(self):
+        """-> (index of the original entry this is (-1: a new object), its key is b'pandas', version of the dumped metadata it holds (-1: its own value))"""
+        return self.j, ISP(self.j), z3.IntVal(-1)
+
+
+class NewKV(H):
+    """a KeyValue object built by the code"""
+
+    def __init__(self, key_is_pandas, version):
+        self.key_is_pandas, self.version = key_is_pandas, version
+
+    def merge(self, c, other):
+        return KVMix(c, Custom(self), other)
+
+    def describe(self):
+        return z3.IntVal(-1), z3.BoolVal(self.key_is_pandas), z3.IntVal(self.version)
+
+
+class KVMix(H):
+    def __init__(self, c, a, b):
+        self.c, self.a, self.b = c, a, b
+
+    def merge(self, c, other):
+        return KVMix(c, Custom(self), other)
+
+    def describe(self):
+        if not all(isinstance(x, Custom) and hasattr(x.h, "describe") for x in (self.a, self.b)):
+            raise Unsupported("key-value list holding something that is not an entry")
+        return tuple(z3.If(self.c, x, y) for x, y in zip(self.a.h.describe(), self.b.h.describe()))
+
 
 def key_op(eng, p, key, what, total, node):
     """an operation other than ==/!= applied to a key: the function is total on ARBITRARY keys only if it cannot raise"""
@@ -220,6 +273,14 @@ class KeyText(H):
             j = self.key.idx
             return z3.Or(z3.And(z3.Not(KEYSTR(*j)), ISNCK(*j)), z3.And(KEYSTR(*j), ISPSTR(*j)))
         return eng.fresh("key_text_eq", B)
+
+
+class NestedGen(H):
+    """a generator expression with several `for` clauses: binders [(position constant, length)], the qualification and the element
+    as terms over the binders"""
+
+    def __init__(self, binders, guard, elt):
+        self.binders, self.guard, self.elt = binders, guard, elt
 
 
 class KVal(H):
@@ -386,6 +447,9 @@ class FMD(H):
         raise Unsupported("FileMetaData." + name)
 
     def setattr(self, eng, p, name, v):
+        if name == "key_value_metadata":
+            p.ghost["kv_list_assigned"] = v          # the list is REBUILT: judged by the whole-view postcondition
+            return
         p.ghost["fmd_attr_writes"] = list(p.ghost.get("fmd_attr_writes", [])) + [name]
 
 
@@ -518,6 +582,10 @@ class CatsEngine(ListEngine):
     """operations on values this proof script does not model give an arbitrary value (sound), not `out of reach`"""
 
     def binop(self, op, a, b, p, node):
+        if isinstance(op, ast.Add) and isinstance(b, Tup) and b.is_list and b.items and isinstance(a, Custom) and \
+                (isinstance(a.h, LSeq) or hasattr(a.h, "as_lseq")):
+            left = a.h if isinstance(a.h, LSeq) else a.h.as_lseq(self, p)
+            return left.binop(self, p, op, Custom(LSeq.of_items(b.items)), node)
         try:
             return super().binop(op, a, b, p, node)
         except Unsupported:
@@ -528,9 +596,116 @@ def run_cats(funcs, timeout):
     res = Results()
     meta = Meta()
 
+    def nested_gen(eng, q, e):
+        """(elt for x in A for y in B(x) if .. for z in C(x, y) if ..): one arbitrary member per level; consumed by next() / max()"""
+        binders, guard, mark = [], z3.BoolVal(True), len(q.pc)
+        for g in e.generators:
+            n0 = len(q.pc)
+            cands = [(r, c) for r, c in eng.ev(g.iter, q) if not (isinstance(c, Tup) and not c.items)]      # `x or []`: [] has no members
+            if len(cands) != 1:
+                raise Unsupported("generator over a forking collection")
+            r, coll = cands[0]
+            if r is not q:
+                guard = z3.And(guard, *r.pc[n0:])
+            if isinstance(coll, Custom) and hasattr(coll.h, "as_lseq"):
+                coll = Custom(coll.h.as_lseq(eng, q))
+            if not (isinstance(coll, Custom) and isinstance(coll.h, LSeq)):
+                raise Unsupported("generator over " + type(coll).__name__)
+            X = ix(eng, "G")
+            binders.append((X, coll.h.n))
+            q.pc += [0 <= X, X < coll.h.n]
+            eng.assign(g.target, coll.h.at(X), q)
+            for c in g.ifs:
+                n1 = len(q.pc)
+                cs = eng.cond(c, q)
+                guard = z3.And(guard, cs[0][1] if len(cs) == 1 and cs[0][0] is q else z3.Or(*[z3.And(*r2.pc[n1:], v) for r2, v in cs]))
+        ev = eng.ev(e.elt, q)
+        if len(ev) != 1 or ev[0][0] is not q:
+            raise Unsupported("forking element")
+        q.pc[mark:] = [c for c in q.pc[mark:] if not any(_mentions(c, X) for X, _ in binders)]
+        return [(q, Custom(NestedGen(binders, guard, ev[0][1])))]
+
+    def gen_member(eng, p, gen, tag):
+        """a member of the generator at Skolem positions W: -> (in range and qualifying, value there, W)"""
+        W = [ix(eng, f"w_{tag}{i}") for i in range(len(gen.binders))]
+        pairs = [(X, w) for (X, _), w in zip(gen.binders, W)]
+        rng = z3.And(*[z3.And(0 <= w, w < z3.substitute(n, *pairs)) for (X, n), w in zip(gen.binders, W)])
+        val = gen.elt
+        val = PyI(z3.substitute(val.z, *pairs)) if isinstance(val, PyI) else _subst_many(val, pairs)
+        return z3.And(rng, z3.substitute(gen.guard, *pairs)), val, W
+
+    def _subst_many(v, pairs):
+        for X, w in pairs:
+            v = _subst_obj(v, X, w)
+        return v
+
+    def note_chunk(p, W, n):
+        if n == 3:        # (row group, chunk, key-value): the chunk a value stored next comes from (ghost witness of "attained")
+            p.ghost["cur_rc"] = (W[0], W[1])
+            spec_facts(p, W[0], W[1])
+            # ASSUMED: at most one b'num_categories' entry per chunk - a qualifying entry is the chunk's first one
+            p.axioms.append(z3.Implies(z3.And(0 <= W[2], W[2] < CKVN(W[0], W[1]), ISNCK(W[0], W[1], W[2])), W[2] == FIRSTJ(W[0], W[1])))
+
+    def at_spec_chunk(eng, p, gen):
+        """the generator's qualification and value at the Skolem chunk (RS, CS) of the postcondition and its first b'num_categories' entry"""
+        if len(gen.binders) != 3:
+            return None
+        spec_facts(p, RS, CS)
+        fs = z3.Int("ix_spec_first_q")
+        p.pc.append(fs == FIRSTJ(RS, CS))
+        pairs = [(gen.binders[0][0], RS), (gen.binders[1][0], CS), (gen.binders[2][0], fs)]
+        rng = z3.And(*[z3.And(0 <= w, w < z3.substitute(n, *pairs)) for (X, n), (_, w) in zip(gen.binders, pairs)])
+        if not isinstance(gen.elt, PyI):
+            return None
+        return z3.And(rng, z3.substitute(gen.guard, *pairs)), z3.substitute(gen.elt.z, *pairs)
+
+    def h_next(eng, p, args, kw, node):
+        g = args[0]
+        if not (isinstance(g, Custom) and isinstance(g.h, NestedGen)):
+            raise Unsupported("next() of " + type(g).__name__)
+        # next(gen[, default]) = the value at the FIRST qualifying position - here: at SOME qualifying position W (all that is used)
+        ex = eng.fresh("generator_nonempty", B)
+        ok, val, W = gen_member(eng, p, g.h, "first")
+        p.axioms.append(z3.Implies(ex, ok))
+        inst = at_spec_chunk(eng, p, g.h)
+        if inst is not None:
+            p.axioms.append(z3.Implies(inst[0], ex))           # a qualifying position exists => the generator is not empty
+        note_chunk(p, W, len(W))
+        if len(args) == 1:
+            eng.oblige(p, f"{eng.cur_func}.next_of_nonempty_generator@L{node.lineno}", "safety", ex, node, note="StopIteration otherwise")
+            return [(p, val)]
+        d = args[1]
+        if isinstance(d, NoneV):
+            return [(p, Opt(z3.Not(ex), val))]
+        raise Unsupported("next() with a default other than None")
+
+    def h_max(eng, p, args, kw, node):
+        g = args[0] if args else None
+        if isinstance(g, Custom) and isinstance(g.h, NestedGen) and isinstance(g.h.elt, PyI):
+            # max over the generator: attained at some qualifying position W, an upper bound of the value at every qualifying position
+            # (instantiated at the Skolem chunk of the postcondition)
+            ex = eng.fresh("generator_nonempty", B)
+            ok, val, W = gen_member(eng, p, g.h, "max")
+            m = eng.fresh_int("max_of_generator")
+            p.axioms.append(z3.Implies(ex, z3.And(ok, m == val.z)))
+            inst = at_spec_chunk(eng, p, g.h)
+            if inst is not None:
+                p.axioms.append(z3.Implies(inst[0], z3.And(ex, inst[1] <= m)))
+            note_chunk(p, W, len(W))
+            if "default" in kw:
+                if not isinstance(kw["default"], NoneV):
+                    raise Unsupported("max() with a default other than None")
+                return [(p, Opt(z3.Not(ex), PyI(m)))]
+            eng.oblige(p, f"{eng.cur_func}.max_of_nonempty_generator@L{node.lineno}", "safety", ex, node, note="ValueError otherwise")
+            return [(p, PyI(m))]
+        try:
+            return BUILTINS["max"](eng, p, args, kw, node)
+        except Unsupported:
+            return [(p, Opaque(("max", next(eng.counter))))]       # e.g. max() of byte strings: lexicographic, no integer meaning
+
     def h_listcomp(eng, p, e):
         if len(e.generators) != 1:
-            return None
+            return nested_gen(eng, p, e)
         out = []
         for q, coll in eng.ev(e.generators[0].iter, p):        # `x or []` forks: one path per alternative
             r = comp_one(eng, q, e, coll)
@@ -565,7 +740,10 @@ def run_cats(funcs, timeout):
                 raise Unsupported("forking element")
             q.pc[mark:] = [c for c in q.pc[mark:] if not _mentions(c, J)]
             elt = ev[0][1]
-            return [(q, Custom(FList(eng, q, seq.n, (lambda t: z3.substitute(cond, (J, t))), (lambda t: _subst_obj(elt, J, t)))))]
+            fl = FList(eng, q, seq.n, (lambda t: z3.substitute(cond, (J, t))), (lambda t: _subst_obj(elt, J, t)))
+            if isinstance(elt, Custom) and isinstance(elt.h, ColRec):
+                q.ghost["cats_nonempty"] = fl.r          # "some column is categorical"
+            return [(q, Custom(fl))]
         return comp_over(eng, q, e, coll)
 
     def _subst_obj(v, J, t):
@@ -583,6 +761,12 @@ def run_cats(funcs, timeout):
         if not ok:
             raise Unsupported("json.loads of something that is not a key-value's value")
         return [(p, Custom(meta))]
+
+    def h_keyvalue(eng, p, args, kw, node):
+        k, v = kw.get("key"), kw.get("value")
+        lit = k.tag[1] if isinstance(k, Opaque) and isinstance(k.tag, tuple) and k.tag[:1] == ("bytes",) else None
+        ver = v.h.version if isinstance(v, Custom) and type(v.h).__name__ == "Dumped" else -2
+        return [(p, Custom(NewKV(lit == b"pandas", ver)))]
 
     def h_dumps(eng, p, args, kw, node):
         a = args[0]
@@ -624,13 +808,9 @@ def run_cats(funcs, timeout):
             return [(p, Custom(DecB(args[0].z)))]
         return [(p, Opaque(("str", next(eng.counter))))]
 
-    def h_max(eng, p, args, kw, node):
-        try:
-            return BUILTINS["max"](eng, p, args, kw, node)
-        except Unsupported:
-            return [(p, Opaque(("max", next(eng.counter))))]       # e.g. max() of byte strings: lexicographic, no integer meaning
     handlers = {"listcomp": h_listcomp, "json.loads": h_loads, "json.dumps": h_dumps, ".join": h_join, "str": h_str, "max": h_max,
-                "ensure_str": h_ensure_str}
+                "ensure_str": h_ensure_str, "next": h_next,
+                "parquet_thrift.KeyValue": h_keyvalue, "KeyValue": h_keyvalue}
     eng = CatsEngine(funcs=funcs, handlers=handlers, opaque_calls=True)
     eng.col_ends = []
     p = Path()
@@ -679,17 +859,48 @@ def run_cats(funcs, timeout):
             continue
         res.add("cats.nothing_else_in_pandas_metadata_changes", PROVED if other == 0 else REFUTED, None if other == 0 else {"other_stores": other}, 0.0, "trace",
                 "the only store into the parsed metadata is ['metadata']['num_categories'] (and fmd's attributes are not reassigned)")
-        good = [w for w in writes if w[1] == 2 and isinstance(w[2], Custom) and type(w[2].h).__name__ == "Dumped"
-                and w[2].h.version == q.ghost.get("meta_version", 0) and w[0].eq(loaded)]
-        st, m, secs = (REFUTED, None, 0.0)
-        if len(good) == 1:
-            # the entry written is one whose key is b'pandas' (the first such entry: the one the metadata was read from)
-            st, m, secs = discharge_inst(q.pc, q.axioms, q.ghost.get("univ", []), False, z3.And(0 <= loaded, loaded < NKV, ISP(loaded)), timeout)
-        res.add("cats.writes_updated_json_under_pandas_key", st, None, secs, "z3+trace",
-                "one store: value (field 2) of the b'pandas' entry the metadata was parsed from := json.dumps(<meta after all updates>).encode()")
-        res.add("cats.other_key_values_untouched", PROVED if len(writes) == len(good) else REFUTED,
-                None if len(writes) == len(good) else {"stores": [(str(w[0]), w[1]) for w in writes]}, 0.0, "trace",
-                "no other entry / field of fmd.key_value_metadata is written")
+        # whole-view postcondition on fmd.key_value_metadata: the list after the call (the original list object with its in-place stores,
+        # or the list the code assigned) == the list before with ONLY the pandas entry's value replaced: same length, same order, every
+        # other entry the same object, untouched.  Posed at a Skolem position.
+        univ = q.ghost.get("univ", [])
+        final_v = q.ghost.get("meta_version", 0)
+        assigned = q.ghost.get("kv_list_assigned")
+        if assigned is not None and isinstance(assigned, Custom) and hasattr(assigned.h, "as_lseq") and not isinstance(assigned.h, LSeq):
+            assigned = Custom(assigned.h.as_lseq(eng, q))
+        Lf = assigned.h if assigned is not None and isinstance(assigned, Custom) and isinstance(assigned.h, LSeq) else \
+            (None if assigned is not None else LSeq(NKV, lambda j: Custom(KV(j))))
+        jq = z3.Int("ix_kv_q")
+        try:
+            e = Lf.at(jq) if Lf is not None else None
+            desc = e.h.describe() if isinstance(e, Custom) and hasattr(e.h, "describe") else None
+        except Unsupported:
+            desc = None
+        if desc is None:
+            for nm in ("cats.writes_updated_json_under_pandas_key", "cats.other_key_values_untouched"):
+                res.add(nm, UNKNOWN, None, 0.0, "engine", "fmd.key_value_metadata was replaced by something this proof script cannot describe: out of reach")
+            continue
+        orig, keyp, ver = desc
+        untouched = lambda j: z3.And(*[w[0] != j for w in writes]) if writes else z3.BoolVal(True)
+        fp_writes = [w for w in writes if w[0].eq(loaded)]
+        dumped_final = lambda w: w[1] == 2 and isinstance(w[2], Custom) and type(w[2].h).__name__ == "Dumped" and w[2].h.version == final_v
+        in_place_ok = z3.BoolVal(len(fp_writes) == 1 and dumped_final(fp_writes[0]))
+        nothing_to_do = z3.And(z3.Not(q.ghost["cats_nonempty"]), z3.BoolVal(not fp_writes)) if "cats_nonempty" in q.ghost else z3.BoolVal(False)
+        inr = z3.And(0 <= jq, jq < NKV)
+        g_pandas = z3.And(0 <= loaded, loaded < NKV, ISP(loaded), Lf.n == NKV,
+                          z3.Implies(z3.And(inr, jq == loaded),
+                                     z3.Or(z3.And(orig == loaded, ver == -1, z3.Or(in_place_ok, nothing_to_do)),          # same object, value stored in place
+                                           z3.And(orig == -1, keyp, ver == final_v, z3.BoolVal(not fp_writes)))))          # a new entry b'pandas' -> final dump
+        st, m, secs = discharge_inst(q.pc, q.axioms, univ, False, g_pandas, timeout)
+        res.add("cats.writes_updated_json_under_pandas_key", st, {"entry": backends.model_value(m, jq), "n_key_values": backends.model_value(m, NKV),
+                                                                  "list_len_after": backends.model_value(m, Lf.n)} if m is not None else None, secs, "z3",
+                "the b'pandas' entry the metadata was parsed from (at its old position) holds json.dumps(<meta after all updates>).encode() - stored in place "
+                "or as a new entry - or is left alone when no column is categorical")
+        g_others = z3.And(Lf.n == NKV, z3.Implies(z3.And(inr, jq != loaded), z3.And(orig == jq, ver == -1, untouched(jq))))
+        st, m, secs = discharge_inst(q.pc, q.axioms, univ, False, g_others, timeout)
+        res.add("cats.other_key_values_untouched", st, {"entry": backends.model_value(m, jq), "n_key_values": backends.model_value(m, NKV),
+                                                        "list_len_after": backends.model_value(m, Lf.n), "pandas_entry_at": backends.model_value(m, loaded)} if m is not None else None,
+                secs, "z3", "whole view: len(key_value_metadata) unchanged and every entry other than the pandas one is the same object at the same position, "
+                            "never written (also when the list is rebuilt by slices / concatenation)")
     if not any(nm == "cats.total_on_arbitrary_keys" for nm in res.order):
         res.add("cats.total_on_arbitrary_keys", PROVED, None, 0.0, "trace",
                 "only == / != with a constant is ever applied to a key of fmd.key_value_metadata or of a chunk: keys that are arbitrary bytes "
